@@ -51,6 +51,12 @@ end
 /-- `ValidateSignatureDepth(limit, key)` for a multisig key with members `ks`. -/
 def validateSignatureDepth (limit : Nat) (ks : List KeyTree) : Bool := (recSignDepth limit 1 ks).2
 
+/-- `PublicKeyMultiSignature.VerifyBytes` after decoding, as a composition of member verdicts:
+the number of signatures equals the number of keys, and at every position the signature is
+non-empty and verifies under the key at that position (`bits[i]`).  N-of-N, positional. -/
+def multisigOk (nKeys nSigs : Nat) (bits : List Bool) : Bool :=
+  nSigs == nKeys && bits.length == nKeys && bits.all id
+
 /-- Cryptographic parameters. -/
 structure Scheme where
   PK : Type
